@@ -92,9 +92,18 @@ Theorem C18_restore_on_scope_exit :
     nth_error (c_tasks c) t = Some tk ->
     t_frames tk = fr :: frs -> f_code fr = [] -> f_scope fr = Some p ->
     t_ctx tk = f_saved fr ++ [p]
-    /\ micro fl defs c t = c <| c_tasks := upd t (tk <| t_frames := frs |> <| t_ctx := f_saved fr |>) (c_tasks c) |>.
+    /\ micro fl defs c t = c <| c_tasks := upd t (tk <| t_frames := frs |> <| t_ctx := f_saved fr |>) (c_tasks c) |>
+                             <| c_trace ::= cons (OExit t p (f_saved fr)) |>.
 Proof. exact scope_exit_restores_entry_stack. Qed.
 Print Assumptions C18_restore_on_scope_exit.
+
+(*     the same as a property of the log: in every run the scope entries / exits of every task are well bracketed
+       (an exit matches the most recent unmatched entry of the same task and is for the same process) and every
+       exit leaves exactly the stack the matching entry found ([bracketed], Comms/Ctx.v); *)
+Theorem C18_restore_scope_events_bracketed :
+  forall fl defs fuel s, bracketed (log_of (run fl defs fuel s)).
+Proof. exact scope_events_bracketed. Qed.
+Print Assumptions C18_restore_scope_events_bracketed.
 
 Theorem C18_scope_entry :
   forall fl defs c t tk fr frs i code' p body,
@@ -164,6 +173,13 @@ Theorem C18_example_run_samples :
   /\ In ORet tr /\ In (OCode 2 (KHook HRun) (Some 0)) tr.
 Proof. exact example_run_samples. Qed.
 Print Assumptions C18_example_run_samples.
+
+Theorem C18_example_run_scope_events :
+  let tr := c_trace (run false ex_defs 400 ex_sched) in
+  In (OEnter 4 2 [0]) tr /\ In (OExit 4 2 [0]) tr /\ In (OEnter 3 1 [0]) tr /\ In (OExit 3 1 [0]) tr
+  /\ In (OEnter 1 0 []) tr /\ In (OExit 1 0 []) tr.
+Proof. exact example_run_scope_events. Qed.
+Print Assumptions C18_example_run_scope_events.
 
 Theorem C18_example_run_stacks :
   map (fun tk => (t_base tk, t_ctx tk)) (c_tasks (run false ex_defs 400 ex_sched))
